@@ -154,6 +154,11 @@ def cmd_replay(path):
     doc = json.load(open(path))
     pid = doc["property"]
     mod = load(pid)
+    if hasattr(mod, "replay"):
+        rc = mod.replay(doc)
+        if rc == 1:
+            print("VIOLATION property=%s replay=%s" % (pid, path))
+        return rc
     import world
     world.install()
     res = mod.execute(doc["case"])
@@ -174,6 +179,8 @@ def cmd_check(pid, tier, n_override=None, nproc=None, budget_s=None):
     t0 = time.monotonic()
     seed = int(os.environ.get("VERIF_SEED", "0") or 0)
     mod = load(pid)
+    if hasattr(mod, "custom_check"):
+        return mod.custom_check(tier, seed, nproc)
     findings = load_findings()
     exit_code = 0
     lines = []
@@ -422,7 +429,17 @@ def main():
     k.add_argument("seed", type=int)
     k.add_argument("index", type=int)
     k.add_argument("--tier", default="quick")
+    w = sub.add_parser("c15worker")
+    w.add_argument("seed", type=int)
+    w.add_argument("tier")
+    w.add_argument("variant")
+    w.add_argument("only", nargs="?")
     a = ap.parse_args()
+    if a.cmd == "c15worker":
+        import c15
+        digests, full = c15.worker(a.seed, a.tier, json.loads(a.variant), json.loads(a.only) if a.only else None)
+        print(json.dumps({"digests": digests, "full": full}, default=repr))
+        sys.exit(0)
     if a.cmd == "digests":
         # hash seed is chosen by the caller here
         os.environ.setdefault("SIMJS_CHILD", "1")
